@@ -9,8 +9,8 @@
 
 enum { SK_TERM, SK_NT, SK_ERR };
 #define NILTR (-1)
-#define G_MAXSYM 18
-#define G_MAXRULE 14
+#define G_MAXSYM 30
+#define G_MAXRULE 18
 #define G_MAXRHS 5
 #define G_MAXTR 4
 
@@ -344,6 +344,65 @@ static const struct gram catalogue[] = {
       { 2, 2, { 4, 1 }, "s1", 1, 2, { 0, 1 } },
       { 3, 1, { 4 }, "c", 1, 1, { 0 } },
       { 4, 1, { 0 }, "a", 1, 1, { 0 } } } },
+  /* 39: G40 an abstract node without children competes with nodes that have children (cost pruning has to select a leaf)
+     S : x X # top(0 1) | x a # flat(1) ; X : a # leaf | a # wrap(0) | a b # two(0 1) */
+  { "G40", 5, { T ("x", 'x'), T ("a", 'a'), T ("b", 'b'), N ("S"), N ("X") }, 5,
+    { { 3, 2, { 0, 4 }, "top", 1, 2, { 0, 1 } },
+      { 3, 2, { 0, 1 }, "flat", 1, 1, { 1 } },
+      { 4, 1, { 1 }, "leaf", 1, 0, { 0 } },
+      { 4, 1, { 1 }, "wrap", 1, 1, { 0 } },
+      { 4, 2, { 1, 2 }, "two", 1, 2, { 0, 1 } } } },
+  /* 40: G41 a chain of nullable nonterminals declared top-down, every member with a non-empty alternative
+     S : a T b # s(1) ; T : R | t ; R : Q | r ; Q : E | q ; E : */
+  { "G41", 10, { T ("a", 'a'), T ("b", 'b'), T ("t", 't'), T ("r", 'r'), T ("q", 'q'), N ("S"), N ("T"), N ("R"), N ("Q"), N ("E") }, 8,
+    { { 5, 3, { 0, 6, 1 }, "s", 1, 1, { 1 } },
+      { 6, 1, { 7 }, NULL, 0, 1, { 0 } },
+      { 6, 1, { 2 }, NULL, 0, 1, { 0 } },
+      { 7, 1, { 8 }, NULL, 0, 1, { 0 } },
+      { 7, 1, { 3 }, NULL, 0, 1, { 0 } },
+      { 8, 1, { 9 }, NULL, 0, 1, { 0 } },
+      { 8, 1, { 4 }, NULL, 0, 1, { 0 } },
+      { 9, 0, { 0 }, NULL, 0, 0, { 0 } } } },
+  /* 41: G42 six bracket pairs around the same phrase: more than ten dynamic-lookahead contexts
+     S : A | S A # s(0 1) ; A : p X q # a1(1) | r X s # a2(1) | t X u # a3(1) | v X w # a4(1) | y X z # a5(1) | m X n # a6(1) ; X : i | i j # ij(0 1) */
+  { "G42", 17, { T ("i", 'i'), T ("j", 'j'), T ("p", 'p'), T ("r", 'r'), T ("t", 't'), T ("v", 'v'), T ("y", 'y'), T ("m", 'm'),
+                 T ("q", 'q'), T ("s", 's'), T ("u", 'u'), T ("w", 'w'), T ("z", 'z'), T ("n", 'n'), N ("S"), N ("A"), N ("X") }, 10,
+    { { 14, 1, { 15 }, NULL, 0, 1, { 0 } },
+      { 14, 2, { 14, 15 }, "s", 1, 2, { 0, 1 } },
+      { 15, 3, { 2, 16, 8 }, "a1", 1, 1, { 1 } },
+      { 15, 3, { 3, 16, 9 }, "a2", 1, 1, { 1 } },
+      { 15, 3, { 4, 16, 10 }, "a3", 1, 1, { 1 } },
+      { 15, 3, { 5, 16, 11 }, "a4", 1, 1, { 1 } },
+      { 15, 3, { 6, 16, 12 }, "a5", 1, 1, { 1 } },
+      { 15, 3, { 7, 16, 13 }, "a6", 1, 1, { 1 } },
+      { 16, 1, { 0 }, NULL, 0, 1, { 0 } },
+      { 16, 2, { 0, 1 }, "ij", 1, 2, { 0, 1 } } } },
+  /* 42: G43 twelve bracket pairs (a..n open, o..z close) around the same phrase: more dynamic-lookahead contexts than the
+     rows the situation table gets at once
+     S : A | S A # s(0 1) ; A : a X o # a0(1) | b X p # a1(1) | ... | n X z # a11(1) ; X : i | i j # ij(0 1) */
+  { "G43", 29, { T ("i", 'i'), T ("j", 'j'), T ("a", 'a'), T ("b", 'b'), T ("c", 'c'), T ("d", 'd'), T ("e", 'e'), T ("f", 'f'), T ("g", 'g'), T ("h", 'h'), T ("k", 'k'), T ("l", 'l'), T ("m", 'm'), T ("n", 'n'), T ("o", 'o'), T ("p", 'p'), T ("q", 'q'), T ("r", 'r'), T ("s", 's'), T ("t", 't'), T ("u", 'u'), T ("v", 'v'), T ("w", 'w'), T ("x", 'x'), T ("y", 'y'), T ("z", 'z'), N ("S"), N ("A"), N ("X") }, 16,
+    { { 26, 1, { 27 }, NULL, 0, 1, { 0 } },
+      { 26, 2, { 26, 27 }, "s", 1, 2, { 0, 1 } },
+      { 27, 3, { 2, 28, 14 }, "a0", 1, 1, { 1 } },
+      { 27, 3, { 3, 28, 15 }, "a1", 1, 1, { 1 } },
+      { 27, 3, { 4, 28, 16 }, "a2", 1, 1, { 1 } },
+      { 27, 3, { 5, 28, 17 }, "a3", 1, 1, { 1 } },
+      { 27, 3, { 6, 28, 18 }, "a4", 1, 1, { 1 } },
+      { 27, 3, { 7, 28, 19 }, "a5", 1, 1, { 1 } },
+      { 27, 3, { 8, 28, 20 }, "a6", 1, 1, { 1 } },
+      { 27, 3, { 9, 28, 21 }, "a7", 1, 1, { 1 } },
+      { 27, 3, { 10, 28, 22 }, "a8", 1, 1, { 1 } },
+      { 27, 3, { 11, 28, 23 }, "a9", 1, 1, { 1 } },
+      { 27, 3, { 12, 28, 24 }, "a10", 1, 1, { 1 } },
+      { 27, 3, { 13, 28, 25 }, "a11", 1, 1, { 1 } },
+      { 28, 1, { 0 }, NULL, 0, 1, { 0 } },
+      { 28, 2, { 0, 1 }, "ij", 1, 2, { 0, 1 } } } },
+  /* 43: G44 right recursion with a three-token alternative: a situation reaches a set twice with the same origin
+     S : a | a S # r(0 1) | a a a # t(0 1 2) */
+  { "G44", 2, { T ("a", 'a'), N ("S") }, 3,
+    { { 1, 1, { 0 }, NULL, 0, 1, { 0 } },
+      { 1, 2, { 0, 1 }, "r", 1, 2, { 0, 1 } },
+      { 1, 3, { 0, 0, 0 }, "t", 1, 3, { 0, 1, 2 } } } },
 };
 #define N_CATALOGUE ((int) (sizeof (catalogue) / sizeof (catalogue[0])))
 
